@@ -10,6 +10,7 @@ namespace {
 [[nodiscard]] bool IsStructureDomain(SyntaxTree::Cursor iter);
 [[nodiscard]] bool IsStructureDomain(SyntaxTree::Cursor iter, Index index);
 void MangleRadicals(const std::string& funcName, Typification& type);
+void BindRadicals(Typification::Substitutes& substitutes, const Typification& arg, const Typification& value);
 
 std::string ToString(const ExpressionType& type) noexcept(false) {
   return std::visit(
@@ -69,6 +70,27 @@ void MangleRadicals(const std::string& funcName, Typification& type) {
   case StructureType::tuple: {
     for (auto index = Typification::PR_START; index < type.T().Arity() + Typification::PR_START; ++index) {
       MangleRadicals(funcName, type.T().Component(index));
+    }
+    return;
+  }
+  }
+}
+
+void BindRadicals(Typification::Substitutes& substitutes, const Typification& arg, const Typification& value) {
+  switch (arg.Structure()) {
+  case StructureType::basic: {
+    if (IsRadical(arg.E().baseID) && !substitutes.contains(arg.E().baseID)) {
+      substitutes.insert({ arg.E().baseID, value });
+    }
+    return;
+  }
+  case StructureType::collection: {
+    BindRadicals(substitutes, arg.B().Base(), value);
+    return;
+  }
+  case StructureType::tuple: {
+    for (auto index = Typification::PR_START; index < arg.T().Arity() + Typification::PR_START; ++index) {
+      BindRadicals(substitutes, arg.T().Component(index), value);
     }
     return;
   }
@@ -229,6 +251,8 @@ bool TypeEnv::CompareTemplated(
 
   const auto valueStructure = value.Structure();
   if (valueStructure == rslang::StructureType::basic && value.IsAnyType()) {
+    // Note: radicals inside arg that are not instantiated yet stand for the any-type as well
+    BindRadicals(substitutes, arg, value);
     return true;
   }
   const auto argStructure = arg.Structure();
